@@ -220,6 +220,10 @@ func genStopPoints(r rng, k int) *Spec {
 	case vi-len(vs) == spExtraTwice:
 		s.Actions = append(s.Actions, Action{After: time.Nanosecond, Kind: "stop", Inst: x, Stop: &StopVariant{Plain: true}},
 			Action{After: time.Nanosecond, Kind: "stop", Inst: x, Stop: &StopVariant{DeleteKey: true, Wait: true}})
+	case cell.tmpl == "delete":
+		// a Start while the first StopWithContext is still parked in its Delete would race
+		// with that stop call (outside the property: "stop-then-start" is sequential)
+		s.Actions = append(s.Actions, Action{After: time.Nanosecond, Kind: "stop", Inst: x, Stop: &StopVariant{Plain: true}})
 	default:
 		s.Actions = append(s.Actions, Action{After: time.Nanosecond, Kind: "restart", Inst: x, Stop: &StopVariant{Plain: true}})
 	}
